@@ -12,6 +12,9 @@ Re-read from /repo's current sources on every run:
   expression of an `async with` (no bare `.acquire()` / `.release()` / `.locked()`, no alias) --
   the C20 cancellation theorems rest on it: a waiter cancelled while queued then leaves the lock
   alone;
+* whether the store modules are free of per-task / per-context state (no `contextvars`, `threading`,
+  `current_task`, `get_ident`): the C20 model treats a task created inside an open `edit_state` block
+  (which inherits a copy of its creator's context) like any other task;
 * whether `SqliteStateStore.set_state` applies `merge_state` also when no row exists;
 * whether a shallow copy of a `DictLikeModel` owns its `_data`, and whether the path
   step helpers address a `DictLikeModel` by name before trying an integer index.
@@ -160,6 +163,26 @@ def _lock_scoped(cls: ast.ClassDef | None) -> bool:
     return bool(as_ctx) and all(id(n) in as_ctx for n in mentions) and not indirect
 
 
+_CONTEXT_NAMES = {"contextvars", "ContextVar", "copy_context", "threading", "current_task", "get_ident", "_thread"}
+
+
+def _context_free(tree: ast.Module | None) -> bool:
+    """nothing in the module can tell one task / context / thread from another"""
+    if tree is None:
+        return False
+    for n in ast.walk(tree):
+        if isinstance(n, ast.Import) and any(a.name.split(".")[0] in _CONTEXT_NAMES for a in n.names):
+            return False
+        if isinstance(n, ast.ImportFrom) and ((n.module or "").split(".")[0] in _CONTEXT_NAMES
+                                              or any(a.name in _CONTEXT_NAMES for a in n.names)):
+            return False
+        if isinstance(n, ast.Name) and n.id in _CONTEXT_NAMES:
+            return False
+        if isinstance(n, ast.Attribute) and n.attr in _CONTEXT_NAMES:
+            return False
+    return True
+
+
 def _row_none_merges(methods: dict[str, ast.AST]) -> bool:
     """the method holding the `row is None` test of set_state does not return early from that branch
     and calls merge_state after it"""
@@ -226,6 +249,11 @@ def extract(notes: list[str]) -> dict:
     for k in ("memLockScoped", "sqlLockScoped"):
         if not r[k]:
             notes.append(f"gen/statestore: {k}: self._lock is used other than as `async with self._lock`")
+    r["memContextFree"] = _context_free(core)
+    r["sqlContextFree"] = _context_free(sq)
+    for k in ("memContextFree", "sqlContextFree"):
+        if not r[k]:
+            notes.append(f"gen/statestore: {k}: the module refers to contextvars / threading / current_task")
     r["sqlRowNoneMerges"] = _row_none_merges(sql)
     dl = _methods(_class(ev, "DictLikeModel"))
     owns = False
@@ -248,7 +276,7 @@ def generate(notes: list[str]) -> list[str]:
     out = ["namespace GenStateStore", f"def maxDepth : Nat := {r['maxDepth']}"]
     for k in ("memSetLocked", "memSetStateLocked", "memClearLocked", "memEditLocked", "sqlSetLocked", "sqlSetStateLocked",
               "sqlClearLocked", "sqlEditLocked", "sqlRowNoneMerges", "dictLikeCopyOwnsData", "dictLikeByName",
-              "memGetStateCopies", "memLockScoped", "sqlLockScoped"):
+              "memGetStateCopies", "memLockScoped", "sqlLockScoped", "memContextFree", "sqlContextFree"):
         out.append(f"def {k} : Bool := {b(r[k])}")
     out.append("end GenStateStore")
     return out
